@@ -77,6 +77,7 @@ func vxTraceStatSeq(seq string)
 func vxTraceStatFork(on bool)
 func vxTraceStatRule(tmpdir string)
 func vxWalkExtra(path string)
+func vxWalkExtraKind(kind int)
 func vxClockSymbolic(on bool)
 func vxCmdFree(writes, exit bool)
 func vxKillAt(k int)
